@@ -112,20 +112,38 @@ theorem closeSend_quiet (c : Chan) : Quiet c (closeSend c) := by
 
 theorem discardRecv_quiet (c : Chan) : Quiet c (discardRecv c) := by
   simp only [discardRecv]
+  have h0 : items (if 0 < c.recvBuf then sendPkt c (.adjust c.recvBuf) else []) = 0 := by
+    split
+    · exact items_sendPkt _ _
+    · rfl
   split
   · rename_i h
-    exact ⟨rfl, rfl, rfl, rfl, by simp [R.ok, rho, items, actItems, h]⟩
-  · exact quiet_neutral _ rfl rfl rfl rfl rfl (by simp [rho])
+    refine ⟨rfl, rfl, rfl, rfl, ?_⟩
+    simp only [R.ok, items_append, h0]
+    simp [rho, items, actItems, h]
+  · exact quiet_neutral _ h0 rfl rfl rfl rfl (by simp [rho])
 
-theorem flushSendBuf_quiet (c : Chan) : Quiet c (flushSendBuf c) := by
-  simp only [flushSendBuf]
-  have hrep := items_replicate c .data (min c.sendBuf c.sendWin)
+theorem pauseResumeWriting_quiet (c : Chan) : Quiet c (pauseResumeWriting c) := by
+  simp only [pauseResumeWriting]
+  (repeat' split) <;>
+    first
+    | exact quiet_neutral _ rfl rfl rfl rfl rfl (by simp [rho])
+    | exact ⟨rfl, rfl, rfl, rfl, Nat.le_refl _⟩
+
+theorem flushSendTail_quiet (c : Chan) : Quiet c (flushSendTail c) := by
+  simp only [flushSendTail]
   split
   · split
-    · exact quiet_neutral _ (by simp [items_append, hrep, items_sendPkt]) rfl rfl rfl rfl (by simp [rho])
-    · exact quiet_pre _ hrep ((closeSend_quiet _).cast rfl rfl rfl rfl (by simp [rho]))
-    · exact quiet_neutral _ hrep rfl rfl rfl rfl (by simp [rho])
-  · exact quiet_neutral _ hrep rfl rfl rfl rfl (by simp [rho])
+    · exact quiet_neutral _ (items_sendPkt _ _) rfl rfl rfl rfl (by simp [rho])
+    · exact closeSend_quiet _
+    · exact quiet_refl _
+  · exact quiet_refl _
+
+theorem flushSendBuf_quiet (c : Chan) : Quiet c (flushSendBuf c) := by
+  unfold flushSendBuf
+  have hrep := items_replicate c .data (min c.sendBuf c.sendWin)
+  exact quiet_andThen (quiet_pre _ hrep ((pauseResumeWriting_quiet _).cast rfl rfl rfl rfl (by simp [rho])))
+    flushSendTail_quiet
 
 theorem writeEof_quiet (c : Chan) : Quiet c (writeEof c) := by
   unfold writeEof
@@ -203,10 +221,10 @@ theorem pays_of_quiet {c : Chan} {r : R} (h : Quiet c r) : Pays c r := by
 theorem cleanup_pays (e : Exc) (c : Chan) : Pays c (cleanup c e) := by
   have hi : items (cleanup c e).acts = wA c := by
     simp only [cleanup, R.ok, wA]; split <;> simp [items, actItems]
-  have h1 : wA (cleanup c e).c = 0 := by simp only [cleanup, R.ok, wA]; split <;> simp
-  have h2 : sigma (cleanup c e).c.stage = sigma c.stage := by simp only [cleanup, R.ok]; split <;> rfl
-  have h3 : rho (cleanup c e).c = rho c := by simp only [cleanup, R.ok, rho]; split <;> rfl
-  have h4 : wF (cleanup c e).c = wF c := by simp only [cleanup, R.ok, wF]; split <;> rfl
+  have h1 : wA (cleanup c e).c = 0 := by simp only [cleanup, R.ok, wA]; (repeat' split) <;> simp_all
+  have h2 : sigma (cleanup c e).c.stage = sigma c.stage := by simp only [cleanup, R.ok]; (repeat' split) <;> rfl
+  have h3 : rho (cleanup c e).c = rho c := by simp only [cleanup, R.ok, rho]; (repeat' split) <;> simp_all
+  have h4 : wF (cleanup c e).c = wF c := by simp only [cleanup, R.ok, wF]; (repeat' split) <;> simp_all
   unfold Pays chi
   omega
 
